@@ -26,7 +26,8 @@ CHECKS = {
     "C03": dict(engine="KX", ref="4/C03", technique="bounded-exhaustive explicit-state exploration; stored prefixes of "
                 "every compressed output level compared with a set-valued support model",
                 text="All sparsity patterns (incl. empty operands/rows/segments) of every kernel with a compressed "
-                     "output level are enumerated; the stored coordinate set is decoded from the raw arrays.",
+                     "output level are enumerated; every stored level prefix (stored-but-empty ones included) is "
+                     "decoded from the raw pos/crd arrays.",
                 note=AM_NOTE),
     "C04": dict(engine="KX", ref="4/C04", technique="bounded-exhaustive exploration of call histories "
                 "(evaluate | assemble, compute, compute', compute'') on the IR abstract machine with frozen-structure "
@@ -59,7 +60,8 @@ CHECKS["C06"] = dict(engine="NX+TX", ref="4/C06", technique="conformance replay:
                      "ASan on the emitted LLVM, llvmlite MCJIT) and compared bit for bit",
                      text="Kernels of the base program space x all formats x all joint structures within the cap are "
                           "driven through evaluate; assemble; compute; compute' on four executors, and every IR tree of "
-                          "the printer space is printed, compiled (gcc, MCJIT) and run on 128 environments; any "
+                          "the printer space is printed, compiled (gcc, MCJIT) and run on 128 environments; a menu of "
+                          "rounding-sensitive sentences goes through tensora's own cffi build and MCJIT; any "
                           "divergence of a return value or array is a violation. This replay also binds the AM to the code.",
                      note="Trusted base: gcc 12, clang-14, llvmlite/LLVM, the C driver (native/driver.c); exact-value input "
                           "alphabet (rounding covered by a separate sub-sweep).")
@@ -87,13 +89,15 @@ CHECKS["C10"] = dict(engine="RX", ref="4/C10", technique="bounded-exhaustive enu
 CHECKS["C11"] = dict(engine="RX", ref="4/C11", technique="bounded-exhaustive enumeration of operand format pairs x dimensions "
                      "x stored-set pairs x operators on the real Tensor objects against dict arithmetic",
                      text="All ordered format pairs of order 0..2 (3 thorough), all small sparsity patterns, scalars on either "
-                          "side and @ for all order pairs; results decoded from the raw arrays.",
-                     note="Trusted base: dict arithmetic on exact dyadic values.")
+                          "side and @ for all order pairs (each pattern also with inexact operands under an "
+                          "any-summation-order rounding oracle); results decoded from the raw arrays.",
+                     note="Trusted base: dict arithmetic on exact dyadic values; Python float arithmetic for the rounding oracle.")
 CHECKS["C12"] = dict(engine="SX", ref="4/C12", technique="bounded-exhaustive enumeration of all strings up to a length bound, "
                      "all syntax trees up to a leaf bound and all their sentences, through the real parsers/deparsers; "
                      "independent recogniser and Python arithmetic as oracles",
                      text="Totality, round trip and conventional meaning are decided for every string/tree/sentence within "
-                          "the bounds.",
+                          "the bounds; meaning is also observed at the far end of the compiler (every tree up to 5 leaves "
+                          "compiled and run on the IR abstract machine with all dimensions 1) and on both real back ends.",
                      note="Trusted base: the independent format recogniser and Python's expression evaluation.")
 CHECKS["C15"] = dict(engine="PX", ref="4/C15", technique="explicit-state search over cache states (sets of served requests, "
                      "rebuilt by history replay on a cleared cache) plus enumeration of interpreter hash seeds until all "
@@ -113,9 +117,10 @@ CHECKS["C13"] = dict(engine="HX", ref="4/C13", technique="explicit-state breadth
 CHECKS["C14"] = dict(engine="TS", ref="4/C14", technique="stateless model checking of real Python threads: cooperative scheduler "
                      "(sys.settrace line events as scheduling points, scheduler-aware lock), depth-first enumeration of all "
                      "schedules under an iterated preemption bound, every execution compared with the sequential results",
-                     text="All interleavings of 2 (3 thorough) concurrent evaluate calls within the preemption bound are "
-                          "executed on the real code for warm/cold cache, same/different problems and a concurrent "
-                          "drop+gc; each schedule is deterministic and replayable from its choice sequence.",
+                     text="All interleavings of 2 (3 thorough) concurrent evaluate / operator calls within the preemption "
+                          "bound are executed on the real code for warm/cold/full cache, same/different problems, a "
+                          "concurrent drop+gc and concurrent compilation with the code generator visible; guard zones "
+                          "behind kernel allocations; each schedule is deterministic and replayable from its choice sequence.",
                      note="Not decided: true parallelism inside GIL-released native code; switches inside one source line. "
                           "GC is disabled during an execution. Trusted base: the scheduler in vx/ts.py.")
 
